@@ -444,6 +444,7 @@ func checkC04(c *Ctx, r *Report) {
 	r.rule("C04.R6", "errors are returned: recursive calls, unsupported constructs, top level", 4)
 	r.rule("C04.R7", "the content encoder is stored on every path that uses it (no nil-interface call)", 2)
 	r.rule("C04.R9", "tag-number, length and INTEGER octet counts are exactly the minimal number of digits for every value (exact interval partition), digits written most significant first", 6)
+	r.rule("C04.R10", "identifier and length octets have the bit layout of X.690 8.1.2 / 8.1.3: class<<6 | constructed 0x20 | tag number or 11111; continuation bit on all but the last tag octet; short length = the length, long = 0x80|count", 6)
 	r.rule("C04.R8", "the encoding depends on the value, its type and the parameters only: no mutable package-level state on the encode path (memo tables keyed by reflect.Type identity excepted)", 8)
 
 	w := newSchemaWalker(c, r, false)
@@ -467,6 +468,7 @@ func checkC04(c *Ctx, r *Report) {
 	c04ReflectIndex(c, r, mk, "C04.R3")
 	c04ContentAssigned(c, r, mk, "C04.R7")
 	c04DigitCounts(c, r, "C04.R9")
+	berHeaderEncoder(c, r, "C04.R10")
 	codecPurity(c, r, []*ssa.Function{c.fn("cdr/asn", "BerMarshalWithParams"), c.fn("cdr/asn", "BerMarshal")}, modPath+"/cdr/asn", "C04.R8", "encode")
 
 	// ---- R4 bit string
@@ -750,6 +752,7 @@ func checkC05(c *Ctx, r *Report) {
 	r.rule("C05.R2", "every schema type is decodable: members and alternatives tagged, tags unique, leaf kinds handled (exhaustive)", 190)
 	r.rule("C05.R3", "unsupported constructs return an error in both halves", 2)
 	r.rule("C05.R4", "decoder stores values of the right type (reflect Set assignability)", 3)
+	r.rule("C05.R10", "the decoder takes class, form and tag number from the bits the encoder (and X.690 8.1.2) puts them in", 5)
 	r.rule("C05.R9", "what the encoder writes as tag / length / INTEGER octets holds the whole value (shared with C04.R9): otherwise the decoder reads a different value back", 6)
 	r.rule("C05.R8", "every recursive descent of the decoder starts at the offset where the header was parsed", 4)
 	r.rule("C05.R7", "INTEGER / ENUMERATED contents are decoded as two's complement (sibling of the encoder's signed minimal octets)", 2)
@@ -788,6 +791,7 @@ func checkC05(c *Ctx, r *Report) {
 	c05IntegerSigned(c, r, "C05.R7")
 	c05DescentOffsets(c, r, "C05.R8")
 	c04DigitCounts(c, r, "C05.R9")
+	berHeaderDecoder(c, r, "C05.R10")
 	codecPurity(c, r, []*ssa.Function{c.fn("cdr/asn", "UnmarshalWithParams"), c.fn("cdr/asn", "Unmarshal")}, modPath+"/cdr/asn", "C05.R6", "decode")
 }
 
